@@ -166,6 +166,18 @@ package store
 //@   ensures[indexoverlay] dyn(result, *Store).Indexer != nil && fresh(dyn(result, *Store).Indexer) && dyn(result, *Store).Indexer.db != nil && fresh(dyn(result, *Store).Indexer.db) && dyn(dyn(result, *Store).Indexer.db.reader, *Txn) == old(s.Indexer.db) && dyn(dyn(result, *Store).Indexer.db.writer, *Txn) == old(s.Indexer.db)
 //@ func (*Store).Discard
 //@   ensures[indexdropped] old(s.isTxn) ==> forall h int :: !indom(s.Indexer.db.txn.ops, h)
+// The state-commitment tree a store keeps between Root() and Commit() is derived from the PENDING writes. Dropping the
+// pending writes (Reset after a rejected block, Discard) therefore drops the tree with them: the next Root() must be
+// computed from the writes made after the reset, not answered from the tree of the block that was thrown away.
+//@   ensures[treedropped] !s.isTxn ==> s.sc == nil
+// closing a transaction closes the readers / writers behind it (pebble snapshots, iterators, batches): nothing of the
+// Store object is written (ASSUMED for the reader / writer interfaces)
+//@ func (*Txn).Close
+//@   trusted
+//@   modifies ghost(mutexHeld)
+//@ func (*Store).Reset
+//@   ensures[treedropped] !s.isTxn ==> s.sc == nil
+//@   ensures[newoverlay] s.ss != nil && fresh(s.ss)
 //@ func (*Store).Flush
 //@   ensures[indexflushed] isnil(result) ==> forall h int :: !indom(s.Indexer.db.txn.ops, h)
 
